@@ -26,10 +26,20 @@ impl Builder {
         let format = self.format.or_else(|| Format::detect(&raw));
 
         let reader = &mut &raw[..];
-        match format {
+        let scs = match format {
             Some(Format::Text) => text::read_scs(reader),
             Some(Format::Npy) => Array::read_npy(reader).map(Scs::from),
             None => Err(io::Error::new(io::ErrorKind::InvalidData, "invalid format")),
+        }?;
+
+        // A spectrum needs at least one entry along every axis (n chromosomes give n + 1 entries)
+        if scs.shape().iter().any(|&n| n == 0) {
+            Err(io::Error::new(
+                io::ErrorKind::InvalidData,
+                format!("invalid spectrum shape {}: axis of length zero", scs.shape()),
+            ))
+        } else {
+            Ok(scs)
         }
     }
 
